@@ -1,10 +1,17 @@
 //! C01 Group scoping: local assignments undone, global ones survive, at any depth.
 
 use crate::engine::*;
-use crate::texvm::{self, VmOptions};
+use crate::texvm::{self, HState, OutTok};
 use proptest::prelude::*;
 use serde::{Deserialize, Serialize};
-use std::collections::BTreeMap;
+use std::cell::RefCell;
+use std::collections::{BTreeMap, BTreeSet};
+use texlang::command;
+use texlang::token::{Token, Value};
+use texlang::traits::*;
+use texlang::types;
+use texlang::vm;
+use texlang_stdlib::StdLibState;
 
 #[derive(Clone, Copy, Debug, PartialEq, Eq, PartialOrd, Ord, Serialize, Deserialize)]
 pub enum Tgt {
@@ -17,19 +24,31 @@ pub enum Tgt {
     ToksAliasDef,  // \toksdef\ta=n
     ViaToksAlias,  // \ta={..}
     CharDef,       // \chardef\cd=n
-    Macro(u8),     // 0: \ma  1: \mb  2: active ~
+    Macro(u8),     // 0: \ma  1: \mb  2: active ~  3: \mc (undefined at the start)  4: active ? (undefined at the start)
     CatCode(u8),   // index into CAT_CHARS
     MathCode,      // \mathcode 65
     EndLineChar,
     GlobalDefs,
     Font,
+    // appended later; the variants above keep their meaning in stored replay files
+    Skip1,       // \skip1
+    MathCodeHi,  // \mathcode 300 (entry outside the dense part of the code table)
+    MathCharDef, // \mathchardef\md=n
+    ActAliasDef, // \countdef:=n or \chardef:=n   (binding of the active character `:`)
+    ViaActAlias, // :=v             (the register behind `:` while it is a \countdef alias)
 }
 
-const CAT_CHARS: [u32; 3] = [1, 2, 124];
+/// 955 and 70000 live in the sparse (`high`) part of Texlang's code tables.
+const CAT_CHARS: [u32; 5] = [1, 2, 124, 955, 70000];
 const COUNT_REGS: [u32; 4] = [0, 1, 2, 5];
 const BODIES: [&str; 8] = ["A", "B", "CD", "E", "GH", "I", "JK", "L"];
 const FONTS: [(&str, i64); 4] = [("nullfont", 0), ("vpfa", 1), ("vpfb", 2), ("vpfc", 3)];
-const MACRO_NAMES: [&str; 3] = ["\\ma", "\\mb", "~"];
+const MACRO_NAMES: [&str; 5] = ["\\ma", "\\mb", "~", "\\mc", "?"];
+const N_MACROS: u8 = 5;
+const N_CATS: u8 = 5;
+const MAX_INT: i64 = 2147483647;
+/// bound (in points) kept on dimension and glue components by the arithmetic operations
+const MAX_PT: i64 = 10000;
 
 #[derive(Clone, Copy, Debug, PartialEq, Eq, Serialize, Deserialize)]
 pub enum How {
@@ -44,13 +63,29 @@ pub enum How {
     Let,
     /// macros only: `\global\let\x=\y`
     GlobalLet,
+    /// count/dimen/skip registers (also through aliases): `\advance`, `\multiply`, `\divide`
+    Arith,
+    /// the same with a `\global` prefix
+    GlobalArith,
+    /// macros only: `\let\x=a`, `\let\x=\relax`
+    LetChar,
+    /// macros only: `\global\let\x=a`, `\global\let\x=\relax`
+    GlobalLetChar,
 }
 
 #[derive(Clone, Copy, Debug, PartialEq, Eq, Serialize, Deserialize)]
 pub enum Op {
     Begin,
     End,
-    Assign { t: Tgt, v: u8, how: How },
+    Assign {
+        t: Tgt,
+        v: u8,
+        how: How,
+        /// variation of the spelling: prefix chain (`x % 8`), arithmetic operation / `by` / `\let` source (`x / 8`).
+        /// 0 = the basic spelling (what replay files written before this field existed mean).
+        #[serde(default)]
+        x: u8,
+    },
     Read(Tgt),
 }
 
@@ -64,6 +99,12 @@ enum Val {
     I(i64),
     S(String),
     Glue(i64, i64),
+    /// the name has no meaning (undefined control sequence / active character)
+    Undef,
+    /// the name is a `\countdef` alias of this register
+    CountReg(u32),
+    /// the name is a `\chardef` token with this number
+    CharNum(i64),
 }
 
 type Frame = BTreeMap<String, Val>;
@@ -72,6 +113,9 @@ type Frame = BTreeMap<String, Val>;
 pub struct Deviations {
     /// `\gdef` is global even when `\globaldefs` is negative (TeX §1218 makes it local).
     pub gdef_ignores_negative_globaldefs: bool,
+    /// `\let\x=\y` with `\y` undefined leaves `\x` as it was (TeX §1221 gives `\x` the undefined meaning,
+    /// locally or globally like any other `\let`). The scope prefix is still consumed.
+    pub let_undefined_is_noop: bool,
 }
 
 fn count_key(i: u32) -> String {
@@ -90,47 +134,161 @@ fn initial_frame() -> Frame {
         f.insert(format!("dimen{}", i), Val::I(0));
     }
     f.insert("skip".into(), Val::Glue(0, 0));
+    f.insert("skip1".into(), Val::Glue(0, 0));
     for i in 0..3 {
         f.insert(toks_key(i), Val::S(String::new()));
     }
     f.insert("ca".into(), Val::I(5));
     f.insert("ta".into(), Val::I(2));
     f.insert("cd".into(), Val::I(65));
+    f.insert("md".into(), Val::I(7));
+    f.insert("act".into(), Val::CountReg(1));
     f.insert("m0".into(), Val::S("A".into()));
     f.insert("m1".into(), Val::S("B".into()));
     f.insert("m2".into(), Val::S("T".into()));
-    f.insert("cat0".into(), Val::I(15)); // ^^A: invalid? plain-TeX default table below
-    f.insert("cat1".into(), Val::I(12));
-    f.insert("cat2".into(), Val::I(12));
+    f.insert("m3".into(), Val::Undef);
+    f.insert("m4".into(), Val::Undef);
+    // category codes: ^^A, ^^B and | from the plain-TeX defaults of the VM; code points above 127 are "other"
+    let defaults = texlang::types::CatCode::PLAIN_TEX_DEFAULTS;
+    for (i, c) in CAT_CHARS.iter().enumerate() {
+        let v = if (*c as usize) < defaults.len() { defaults[*c as usize] as u8 as i64 } else { 12 };
+        f.insert(format!("cat{}", i), Val::I(v));
+    }
     f.insert("mathcode".into(), Val::I(0));
+    f.insert("mathcodehi".into(), Val::I(0));
     f.insert("endlinechar".into(), Val::I(13));
     f.insert("globaldefs".into(), Val::I(0));
     f.insert("font".into(), Val::I(0));
     f
 }
 
-const PREAMBLE: &str = "\\countdef\\ca=5\\relax \\toksdef\\ta=2\\relax \\chardef\\cd=65\\relax \\def\\ma{A}\\def\\mb{B}\\def~{T}";
+/// `?` and `:` become active (and stay so); `?` and `\mc` are left undefined; `\vpbg`, `\vpeg` are implicit braces.
+const PREAMBLE: &str = "\\let\\vpbg={\\let\\vpeg=}\\catcode`\\?=13\\relax \\catcode`\\:=13\\relax \\countdef\\ca=5\\relax \\toksdef\\ta=2\\relax \\chardef\\cd=65\\relax \\mathchardef\\md=7\\relax \\countdef:=1\\relax \\def\\ma{A}\\def\\mb{B}\\def~{T}";
 
 fn int_value(t: Tgt, v: u8) -> i64 {
     match t {
-        Tgt::Count(_) | Tgt::ViaCountAlias => [0i64, 1, -1, 7, 42, -2147483647, 2147483647, 100][(v % 8) as usize],
+        Tgt::Count(_) | Tgt::ViaCountAlias | Tgt::ViaActAlias => [0i64, 1, -1, 7, 42, -2147483647, 2147483647, 100][(v % 8) as usize],
         Tgt::Dimen(_) => (v % 7) as i64,
         Tgt::CountAliasDef => COUNT_REGS[(v % 4) as usize] as i64,
         Tgt::ToksAliasDef => (v % 3) as i64,
         Tgt::CharDef => 65 + (v % 6) as i64,
+        Tgt::MathCharDef => [7i64, 1, 32767, 28999][(v % 4) as usize],
         Tgt::CatCode(_) => (v % 16) as i64,
-        Tgt::MathCode => [0i64, 1, 32767, 28999][(v % 4) as usize],
+        Tgt::MathCode | Tgt::MathCodeHi => [0i64, 1, 32767, 28999][(v % 4) as usize],
         Tgt::EndLineChar => [-1i64, 13, 65, 32, 94][(v % 5) as usize],
         Tgt::GlobalDefs => [0i64, 1, -1][(v % 3) as usize],
         _ => v as i64,
     }
 }
 
+/// Target with its index reduced to the range in use (key of the per-group bookkeeping).
+fn norm(t: Tgt) -> Tgt {
+    match t {
+        Tgt::Count(i) => Tgt::Count(i % 4),
+        Tgt::Dimen(i) => Tgt::Dimen(i % 2),
+        Tgt::Toks(i) => Tgt::Toks(i % 3),
+        Tgt::Macro(i) => Tgt::Macro(i % N_MACROS),
+        Tgt::CatCode(i) => Tgt::CatCode(i % N_CATS),
+        t => t,
+    }
+}
+
+const KINDS: usize = 14;
+fn kind(t: Tgt) -> usize {
+    match norm(t) {
+        Tgt::Count(_) => 0,
+        Tgt::Dimen(_) => 1,
+        Tgt::Skip | Tgt::Skip1 => 2,
+        Tgt::Toks(_) => 3,
+        Tgt::CountAliasDef | Tgt::ToksAliasDef => 4,
+        Tgt::ViaCountAlias | Tgt::ViaToksAlias => 5,
+        Tgt::CharDef | Tgt::MathCharDef => 6,
+        Tgt::Macro(0 | 1 | 3) => 7,
+        Tgt::Macro(_) => 8,
+        Tgt::CatCode(_) | Tgt::MathCode | Tgt::MathCodeHi => 9,
+        Tgt::EndLineChar | Tgt::GlobalDefs => 10,
+        Tgt::Font => 11,
+        Tgt::ActAliasDef => 12,
+        Tgt::ViaActAlias => 13,
+    }
+}
+/// local-then-global on one target inside one group at depth >= 2, by kind of target
+const LG: [&str; KINDS] = ["lg:count", "lg:dimen", "lg:skip", "lg:toks", "lg:alias-binding", "lg:via-alias", "lg:chardef", "lg:macro-cs", "lg:macro-active", "lg:code-table", "lg:parameter", "lg:font", "lg:active-alias-binding", "lg:via-active-alias"];
+/// global-then-local on one target inside one group at depth >= 2, by kind of target
+const GL: [&str; KINDS] = ["gl:count", "gl:dimen", "gl:skip", "gl:toks", "gl:alias-binding", "gl:via-alias", "gl:chardef", "gl:macro-cs", "gl:macro-active", "gl:code-table", "gl:parameter", "gl:font", "gl:active-alias-binding", "gl:via-active-alias"];
+
+/// Spelling of the prefix. `def_like`: the command takes `\long` and `\outer` too.
+fn prefix_text(prefixed: bool, def_like: bool, x: u8) -> (&'static str, bool) {
+    let k = x % 8;
+    let s = match (def_like, prefixed) {
+        (true, true) => ["\\global", "\\global", "\\global", "\\global", "\\global\\long", "\\long\\global", "\\outer\\global\\long", "\\global\\global"][k as usize],
+        (true, false) => ["", "", "", "", "", "\\long", "\\outer", "\\long\\outer"][k as usize],
+        (false, true) => ["\\global", "\\global", "\\global", "\\global", "\\global", "\\global", "\\global\\global", "\\global\\global"][k as usize],
+        (false, false) => "",
+    };
+    (s, !(s.is_empty() || s == "\\global"))
+}
+
+/// One arithmetic step on an integer-like quantity: (primitive, operand, result). The operand is bent so that the
+/// result stays within `limit` in absolute value (overflow is not this property's business) and, for `exact`,
+/// so that a division leaves no remainder (whole points only; printing fractions is C06's business).
+fn arith_step(cur: i64, cur2: i64, op: u8, v: u8, limit: i64, exact: bool) -> (&'static str, i64) {
+    match op % 3 {
+        0 => {
+            let mut k = [0i64, 1, -1, 2, 7, -100, 1000, 5][(v % 8) as usize];
+            if (cur + k).abs() > limit {
+                k = -k;
+            }
+            ("advance", k)
+        }
+        1 => {
+            let mut m = [1i64, 2, -1, 3, 0, -2][(v % 6) as usize];
+            if (cur * m).abs() > limit || (cur2 * m).abs() > limit {
+                m = -1;
+            }
+            ("multiply", m)
+        }
+        _ => {
+            let mut d = [1i64, 2, -1, 3, -2, 7][(v % 6) as usize];
+            if exact && (cur % d != 0 || cur2 % d != 0) {
+                d = -1;
+            }
+            ("divide", d)
+        }
+    }
+}
+
+fn glue_text(a: i64, b: i64) -> String {
+    if b == 0 {
+        format!("{}.0pt", a)
+    } else {
+        format!("{}.0pt plus {}.0pt", a, b)
+    }
+}
+
+/// What an assignment did, for the class counters.
+#[derive(Default, Clone, Copy)]
+struct Done {
+    global: bool,
+    arith: bool,
+    chain: bool,
+    let_undefined: bool,
+    let_char: bool,
+    defines_undefined: bool,
+    high_code: bool,
+    global_shorthand: bool,
+}
+
 struct Emit {
     text: String,
     model: Vec<Frame>,
+    /// Per open group: whether each macro name has a meaning under the TRUE rules (no deviation switched on).
+    /// The text must not depend on the deviations tried, so this, not `model`, decides whether a read uses the name.
+    tdef: Vec<[bool; N_MACROS as usize]>,
     expected: String,
     dev: Deviations,
+    /// no harness-only builtins in the text (`\vpfont`, `\vpdef`, font selectors)
+    no_probes: bool,
 }
 
 impl Emit {
@@ -141,6 +299,27 @@ impl Emit {
         match self.top().get(k) {
             Some(Val::I(i)) => *i,
             other => panic!("model key {k} = {other:?}"),
+        }
+    }
+    fn gets(&self, k: &str) -> String {
+        match self.top().get(k) {
+            Some(Val::S(s)) => s.clone(),
+            other => panic!("model key {k} = {other:?}"),
+        }
+    }
+    fn getglue(&self, k: &str) -> (i64, i64) {
+        match self.top().get(k) {
+            Some(Val::Glue(a, b)) => (*a, *b),
+            other => panic!("model key {k} = {other:?}"),
+        }
+    }
+    fn set_tdef(&mut self, i: u8, defined: bool, global: bool) {
+        if global {
+            for f in &mut self.tdef {
+                f[i as usize] = defined;
+            }
+        } else {
+            self.tdef.last_mut().unwrap()[i as usize] = defined;
         }
     }
     fn set(&mut self, key: String, val: Val, global: bool) {
@@ -174,25 +353,16 @@ impl Emit {
                 (format!("\\the\\dimen{};", i), format!("{}.0pt", self.geti(&format!("dimen{}", i))))
             }
             Tgt::Skip => {
-                let s = match self.top().get("skip") {
-                    Some(Val::Glue(a, b)) => {
-                        if *b == 0 {
-                            format!("{}.0pt", a)
-                        } else {
-                            format!("{}.0pt plus {}.0pt", a, b)
-                        }
-                    }
-                    _ => unreachable!(),
-                };
-                ("\\the\\skip0;".to_string(), s)
+                let (a, b) = self.getglue("skip");
+                ("\\the\\skip0;".to_string(), glue_text(a, b))
+            }
+            Tgt::Skip1 => {
+                let (a, b) = self.getglue("skip1");
+                ("\\the\\skip1;".to_string(), glue_text(a, b))
             }
             Tgt::Toks(i) => {
                 let i = (i % 3) as u32;
-                let s = match self.top().get(&toks_key(i)) {
-                    Some(Val::S(s)) => s.clone(),
-                    _ => unreachable!(),
-                };
-                (format!("\\the\\toks{};", i), s)
+                (format!("\\the\\toks{};", i), self.gets(&toks_key(i)))
             }
             Tgt::CountAliasDef | Tgt::ViaCountAlias => {
                 let r = self.geti("ca") as u32;
@@ -200,29 +370,60 @@ impl Emit {
             }
             Tgt::ToksAliasDef | Tgt::ViaToksAlias => {
                 let r = self.geti("ta") as u32;
-                let s = match self.top().get(&toks_key(r)) {
-                    Some(Val::S(s)) => s.clone(),
-                    _ => unreachable!(),
-                };
-                ("\\the\\ta;".to_string(), s)
+                ("\\the\\ta;".to_string(), self.gets(&toks_key(r)))
             }
             Tgt::CharDef => ("\\the\\cd;".to_string(), format!("{}", self.geti("cd"))),
-            Tgt::Macro(i) => {
-                let i = i % 3;
-                let s = match self.top().get(&format!("m{}", i)) {
-                    Some(Val::S(s)) => s.clone(),
-                    _ => unreachable!(),
+            Tgt::MathCharDef => ("\\the\\md;".to_string(), format!("{}", self.geti("md"))),
+            Tgt::ActAliasDef | Tgt::ViaActAlias => {
+                let s = match self.top().get("act") {
+                    Some(Val::CountReg(r)) => format!("{}", self.geti(&count_key(*r))),
+                    Some(Val::CharNum(n)) => format!("{}", n),
+                    other => panic!("model key act = {other:?}"),
                 };
-                (format!("{};", MACRO_NAMES[i as usize]), s)
+                ("\\the:;".to_string(), s)
+            }
+            Tgt::Macro(i) => {
+                let i = i % N_MACROS;
+                let name = MACRO_NAMES[i as usize];
+                let body = match self.top().get(&format!("m{}", i)) {
+                    Some(Val::S(s)) => Some(s.clone()),
+                    Some(Val::Undef) => None,
+                    other => panic!("model key m{i} = {other:?}"),
+                };
+                // what a deviating model expects where the text uses a name that it holds to be undefined
+                // (the run would have ended in an error there): something no output can equal
+                const IMPOSSIBLE: &str = "<use of an undefined name>";
+                let used = self.tdef.last().unwrap()[i as usize];
+                if self.no_probes {
+                    // an undefined name cannot be observed without the probe (using it is an error)
+                    match (used, body) {
+                        (true, Some(s)) => (format!("{};", name), s),
+                        (true, None) => (format!("{};", name), IMPOSSIBLE.to_string()),
+                        (false, _) => return,
+                    }
+                } else {
+                    match (used, body) {
+                        (true, Some(s)) => (format!("\\vpdef{}{};", name, name), format!("<probe1=1>{}", s)),
+                        (true, None) => (format!("\\vpdef{}{};", name, name), format!("<probe1=0>{}", IMPOSSIBLE)),
+                        (false, Some(_)) => (format!("\\vpdef{};", name), "<probe1=1>".to_string()),
+                        (false, None) => (format!("\\vpdef{};", name), "<probe1=0>".to_string()),
+                    }
+                }
             }
             Tgt::CatCode(i) => {
-                let i = i % 3;
+                let i = i % N_CATS;
                 (format!("\\the\\catcode{};", CAT_CHARS[i as usize]), format!("{}", self.geti(&format!("cat{}", i))))
             }
             Tgt::MathCode => ("\\the\\mathcode65;".to_string(), format!("{}", self.geti("mathcode"))),
+            Tgt::MathCodeHi => ("\\the\\mathcode300;".to_string(), format!("{}", self.geti("mathcodehi"))),
             Tgt::EndLineChar => ("\\the\\endlinechar;".to_string(), format!("{}", self.geti("endlinechar"))),
             Tgt::GlobalDefs => ("\\the\\globaldefs;".to_string(), format!("{}", self.geti("globaldefs"))),
-            Tgt::Font => ("\\vpfont;".to_string(), format!("<probe0={}>", self.geti("font"))),
+            Tgt::Font => {
+                if self.no_probes {
+                    return;
+                }
+                ("\\vpfont;".to_string(), format!("<probe0={}>", self.geti("font")))
+            }
         };
         self.text.push_str(&text);
         self.expected.push_str(&val);
@@ -231,34 +432,107 @@ impl Emit {
     fn read_all(&mut self) {
         for t in all_targets() {
             // Aliased reads duplicate the plain ones; keep one of each pair.
-            if matches!(t, Tgt::ViaCountAlias | Tgt::ViaToksAlias) {
-                continue;
-            }
-            if matches!(t, Tgt::Font) && NO_FONT.with(|f| f.get()) {
+            if matches!(t, Tgt::ViaCountAlias | Tgt::ViaToksAlias | Tgt::ViaActAlias) {
                 continue;
             }
             self.read(t);
         }
     }
-    fn assign(&mut self, t: Tgt, v: u8, how: How) {
+    fn assign(&mut self, t: Tgt, v: u8, how: How, x: u8) -> Done {
+        let mut done = Done::default();
+        let t = norm(t);
+        // `:=v` needs `:` to be a \countdef alias at this point; otherwise rebind it instead.
+        let t = if matches!(t, Tgt::ViaActAlias) && !matches!(self.top().get("act"), Some(Val::CountReg(_))) { Tgt::ActAliasDef } else { t };
         let is_macro = matches!(t, Tgt::Macro(_));
+        let arith_ok = matches!(t, Tgt::Count(_) | Tgt::ViaCountAlias | Tgt::ViaActAlias | Tgt::Dimen(_) | Tgt::Skip | Tgt::Skip1);
         // Normalise `how` for the target kind.
-        let how = if is_macro {
-            how
-        } else {
-            match how {
-                How::Plain | How::Let => How::Plain,
-                _ => How::Global,
-            }
+        let how = match how {
+            How::Arith if arith_ok => How::Arith,
+            How::GlobalArith if arith_ok => How::GlobalArith,
+            How::Arith => How::Plain,
+            How::GlobalArith => How::Global,
+            h if is_macro => h,
+            How::Plain | How::Let | How::LetChar => How::Plain,
+            _ => How::Global,
         };
-        // \chardef cannot be prefixed by \global in Texlang (fatal error): never prefix it.
-        let how = if matches!(t, Tgt::CharDef) { How::Plain } else { how };
-        let prefixed = matches!(how, How::Global | How::GlobalGdef | How::GlobalLet);
-        let prefix = if prefixed { "\\global" } else { "" };
+        let prefixed = matches!(how, How::Global | How::GlobalGdef | How::GlobalLet | How::GlobalArith | How::GlobalLetChar);
+        let def_like = is_macro && matches!(how, How::Plain | How::Global | How::Gdef | How::GlobalGdef);
+        let (prefix, chain) = prefix_text(prefixed, def_like, x);
+        done.chain = chain;
         let global = self.is_global(prefixed);
+        done.global = global;
+        let xo = x / 8;
+        if matches!(how, How::Arith | How::GlobalArith) {
+            done.arith = true;
+            let by = if (xo / 3) % 3 == 2 { " " } else { " by " };
+            match t {
+                Tgt::Count(_) | Tgt::ViaCountAlias | Tgt::ViaActAlias => {
+                    let (lhs, r) = match t {
+                        Tgt::Count(i) => {
+                            let r = COUNT_REGS[i as usize];
+                            (format!("\\count{}", r), r)
+                        }
+                        Tgt::ViaCountAlias => ("\\ca".to_string(), self.geti("ca") as u32),
+                        _ => match self.top().get("act") {
+                            Some(Val::CountReg(r)) => (":".to_string(), *r),
+                            _ => unreachable!(),
+                        },
+                    };
+                    let cur = self.geti(&count_key(r));
+                    let (prim, n) = arith_step(cur, 0, xo, v, MAX_INT, false);
+                    let new = match prim {
+                        "advance" => cur + n,
+                        "multiply" => cur * n,
+                        _ => cur / n, // truncates towards zero like TeX's x_over_n (§106)
+                    };
+                    self.text.push_str(&format!("{}\\{}{}{}{}\\relax ", prefix, prim, lhs, by, n));
+                    self.set(count_key(r), Val::I(new), global);
+                }
+                Tgt::Dimen(i) => {
+                    let key = format!("dimen{}", i);
+                    let cur = self.geti(&key);
+                    let (prim, n) = arith_step(cur, 0, xo, v, MAX_PT, true);
+                    let (new, unit) = match prim {
+                        "advance" => (cur + n, "pt"),
+                        "multiply" => (cur * n, ""),
+                        _ => (cur / n, ""),
+                    };
+                    self.text.push_str(&format!("{}\\{}\\dimen{}{}{}{}\\relax ", prefix, prim, i, by, n, unit));
+                    self.set(key, Val::I(new), global);
+                }
+                _ => {
+                    let (key, reg) = if matches!(t, Tgt::Skip) { ("skip", 0) } else { ("skip1", 1) };
+                    let (a, b) = self.getglue(key);
+                    let (prim, n) = arith_step(a, b, xo, v, MAX_PT, true);
+                    match prim {
+                        "advance" => {
+                            let mut j = [0i64, 1, 2][((v / 8) % 3) as usize];
+                            if (b + j).abs() > MAX_PT {
+                                j = -j;
+                            }
+                            if j == 0 {
+                                self.text.push_str(&format!("{}\\advance\\skip{}{}{}pt\\relax ", prefix, reg, by, n));
+                            } else {
+                                self.text.push_str(&format!("{}\\advance\\skip{}{}{}pt plus {}pt\\relax ", prefix, reg, by, n, j));
+                            }
+                            self.set(key.into(), Val::Glue(a + n, b + j), global);
+                        }
+                        "multiply" => {
+                            self.text.push_str(&format!("{}\\multiply\\skip{}{}{}\\relax ", prefix, reg, by, n));
+                            self.set(key.into(), Val::Glue(a * n, b * n), global);
+                        }
+                        _ => {
+                            self.text.push_str(&format!("{}\\divide\\skip{}{}{}\\relax ", prefix, reg, by, n));
+                            self.set(key.into(), Val::Glue(a / n, b / n), global);
+                        }
+                    }
+                }
+            }
+            return done;
+        }
         match t {
             Tgt::Count(i) => {
-                let r = COUNT_REGS[(i % 4) as usize];
+                let r = COUNT_REGS[i as usize];
                 let val = int_value(t, v);
                 self.text.push_str(&format!("{}\\count{}={}\\relax ", prefix, r, val));
                 self.set(count_key(r), Val::I(val), global);
@@ -269,24 +543,45 @@ impl Emit {
                 self.text.push_str(&format!("{}\\ca={}\\relax ", prefix, val));
                 self.set(count_key(r), Val::I(val), global);
             }
+            Tgt::ViaActAlias => {
+                let r = match self.top().get("act") {
+                    Some(Val::CountReg(r)) => *r,
+                    _ => unreachable!(),
+                };
+                let val = int_value(t, v);
+                self.text.push_str(&format!("{}:={}\\relax ", prefix, val));
+                self.set(count_key(r), Val::I(val), global);
+            }
+            Tgt::ActAliasDef => {
+                if v % 2 == 0 {
+                    let r = COUNT_REGS[((v / 2) % 4) as usize];
+                    self.text.push_str(&format!("{}\\countdef:={}\\relax ", prefix, r));
+                    self.set("act".into(), Val::CountReg(r), global);
+                } else {
+                    let n = 65 + ((v / 2) % 6) as i64;
+                    self.text.push_str(&format!("{}\\chardef:={}\\relax ", prefix, n));
+                    self.set("act".into(), Val::CharNum(n), global);
+                    done.global_shorthand = prefixed;
+                }
+            }
             Tgt::Dimen(i) => {
-                let i = i % 2;
                 let val = int_value(t, v);
                 self.text.push_str(&format!("{}\\dimen{}={}pt\\relax ", prefix, i, val));
                 self.set(format!("dimen{}", i), Val::I(val), global);
             }
-            Tgt::Skip => {
+            Tgt::Skip | Tgt::Skip1 => {
+                let (key, reg) = if matches!(t, Tgt::Skip) { ("skip", 0) } else { ("skip1", 1) };
                 let a = (v % 5) as i64;
                 let b = ((v / 5) % 3) as i64;
                 if b == 0 {
-                    self.text.push_str(&format!("{}\\skip0={}pt\\relax ", prefix, a));
+                    self.text.push_str(&format!("{}\\skip{}={}pt\\relax ", prefix, reg, a));
                 } else {
-                    self.text.push_str(&format!("{}\\skip0={}pt plus {}pt\\relax ", prefix, a, b));
+                    self.text.push_str(&format!("{}\\skip{}={}pt plus {}pt\\relax ", prefix, reg, a, b));
                 }
-                self.set("skip".into(), Val::Glue(a, b), global);
+                self.set(key.into(), Val::Glue(a, b), global);
             }
             Tgt::Toks(i) => {
-                let i = (i % 3) as u32;
+                let i = i as u32;
                 let body = BODIES[(v % 8) as usize];
                 self.text.push_str(&format!("{}\\toks{}={{{}}}", prefix, i, body));
                 self.set(toks_key(i), Val::S(body.into()), global);
@@ -308,48 +603,76 @@ impl Emit {
                 self.set("ta".into(), Val::I(val), global);
             }
             Tgt::CharDef => {
+                // TeX §1210/§1224: shorthand definitions take \global like any other assignment
                 let val = int_value(t, v);
-                self.text.push_str(&format!("\\chardef\\cd={}\\relax ", val));
+                self.text.push_str(&format!("{}\\chardef\\cd={}\\relax ", prefix, val));
                 self.set("cd".into(), Val::I(val), global);
+                done.global_shorthand = prefixed;
+            }
+            Tgt::MathCharDef => {
+                let val = int_value(t, v);
+                self.text.push_str(&format!("{}\\mathchardef\\md={}\\relax ", prefix, val));
+                self.set("md".into(), Val::I(val), global);
+                done.global_shorthand = prefixed;
             }
             Tgt::Macro(i) => {
-                let i = i % 3;
                 let name = MACRO_NAMES[i as usize];
+                let key = format!("m{}", i);
                 match how {
                     How::Let | How::GlobalLet => {
-                        let src = ((i as usize) + 1 + (v as usize % 2)) % 3;
+                        let src = ((i as usize) + 1 + (v as usize % 4)) % (N_MACROS as usize);
                         let sval = self.top().get(&format!("m{}", src)).unwrap().clone();
                         self.text.push_str(&format!("{}\\let{}={}\\relax ", prefix, name, MACRO_NAMES[src]));
-                        self.set(format!("m{}", i), sval, global);
+                        let src_defined = self.tdef.last().unwrap()[src];
+                        done.let_undefined = !src_defined;
+                        done.defines_undefined = src_defined && !self.tdef.last().unwrap()[i as usize];
+                        self.set_tdef(i, src_defined, global);
+                        if matches!(sval, Val::Undef) {
+                            if !self.dev.let_undefined_is_noop {
+                                self.set(key, Val::Undef, global);
+                            }
+                        } else {
+                            self.set(key, sval, global);
+                        }
+                    }
+                    How::LetChar | How::GlobalLetChar => {
+                        done.let_char = true;
+                        done.defines_undefined = !self.tdef.last().unwrap()[i as usize];
+                        self.set_tdef(i, true, global);
+                        let (rhs, val) = [("a", "a"), ("\\relax ", ""), ("b", "b")][(xo % 3) as usize];
+                        self.text.push_str(&format!("{}\\let{}={}", prefix, name, rhs));
+                        self.set(key, Val::S(val.into()), global);
                     }
                     _ => {
                         let body = BODIES[(v % 8) as usize];
                         let gdef = matches!(how, How::Gdef | How::GlobalGdef);
                         let g = self.geti("globaldefs");
-                        let global = if gdef {
-                            if g < 0 {
-                                self.dev.gdef_ignores_negative_globaldefs
-                            } else {
-                                true
-                            }
-                        } else {
-                            global
-                        };
+                        let true_global = if gdef { g >= 0 } else { global };
+                        let global = if gdef && g < 0 { self.dev.gdef_ignores_negative_globaldefs } else { true_global };
+                        done.global = true_global;
+                        done.defines_undefined = !self.tdef.last().unwrap()[i as usize];
+                        self.set_tdef(i, true, true_global);
                         self.text.push_str(&format!("{}\\{}{}{{{}}}", prefix, if gdef { "gdef" } else { "def" }, name, body));
-                        self.set(format!("m{}", i), Val::S(body.into()), global);
+                        self.set(key, Val::S(body.into()), global);
                     }
                 }
             }
             Tgt::CatCode(i) => {
-                let i = i % 3;
                 let val = int_value(t, v);
                 self.text.push_str(&format!("{}\\catcode{}={}\\relax ", prefix, CAT_CHARS[i as usize], val));
                 self.set(format!("cat{}", i), Val::I(val), global);
+                done.high_code = CAT_CHARS[i as usize] >= 128;
             }
             Tgt::MathCode => {
                 let val = int_value(t, v);
                 self.text.push_str(&format!("{}\\mathcode65={}\\relax ", prefix, val));
                 self.set("mathcode".into(), Val::I(val), global);
+            }
+            Tgt::MathCodeHi => {
+                let val = int_value(t, v);
+                self.text.push_str(&format!("{}\\mathcode300={}\\relax ", prefix, val));
+                self.set("mathcodehi".into(), Val::I(val), global);
+                done.high_code = true;
             }
             Tgt::EndLineChar => {
                 let val = int_value(t, v);
@@ -367,6 +690,7 @@ impl Emit {
                 self.set("font".into(), Val::I(id), global);
             }
         }
+        done
     }
 }
 
@@ -379,6 +703,7 @@ fn all_targets() -> Vec<Tgt> {
         v.push(Tgt::Dimen(i));
     }
     v.push(Tgt::Skip);
+    v.push(Tgt::Skip1);
     for i in 0..3 {
         v.push(Tgt::Toks(i));
     }
@@ -387,13 +712,17 @@ fn all_targets() -> Vec<Tgt> {
     v.push(Tgt::ToksAliasDef);
     v.push(Tgt::ViaToksAlias);
     v.push(Tgt::CharDef);
-    for i in 0..3 {
+    v.push(Tgt::MathCharDef);
+    v.push(Tgt::ActAliasDef);
+    v.push(Tgt::ViaActAlias);
+    for i in 0..N_MACROS {
         v.push(Tgt::Macro(i));
     }
-    for i in 0..3 {
+    for i in 0..N_CATS {
         v.push(Tgt::CatCode(i));
     }
     v.push(Tgt::MathCode);
+    v.push(Tgt::MathCodeHi);
     v.push(Tgt::EndLineChar);
     v.push(Tgt::GlobalDefs);
     v.push(Tgt::Font);
@@ -406,41 +735,32 @@ pub struct Built {
     pub max_depth: usize,
     pub nontrivial: bool,
     pub uses_globaldefs: bool,
+    /// shapes reached by this program (class counters)
+    pub classes: Vec<&'static str>,
 }
 
 pub fn build(p: &Program, dev: Deviations) -> Built {
     build_opts(p, dev, None, false).0
 }
 
-/// Like `build`, but optionally without font targets (for engines that lack the harness probes)
-/// and reporting the byte offset in `text` just before operation `split_at` (after the preamble
-/// when `split_at` is 0; the end of the operations when it is >= their number).
+/// Like `build`, but optionally without font targets and without any harness-only builtin in the text
+/// (`no_font`: for engines that lack the harness probes `\vpfont`, `\vpdef` and the font selectors; an
+/// undefined name is then simply not read) and reporting the byte offset in `text` just before operation
+/// `split_at` (after the preamble when `split_at` is 0; the end of the operations when it is >= their number).
 pub fn build_opts(p: &Program, dev: Deviations, split_at: Option<usize>, no_font: bool) -> (Built, usize) {
     let ops: Vec<Op> = p.ops.iter().filter(|o| !(no_font && matches!(o, Op::Assign { t: Tgt::Font, .. } | Op::Read(Tgt::Font)))).copied().collect();
     let p = &Program { ops };
-    NO_FONT.with(|f| f.set(no_font));
-    let r = build_inner(p, dev, split_at);
-    NO_FONT.with(|f| f.set(false));
-    r
+    build_inner(p, dev, split_at, no_font)
 }
 
-thread_local! {
-    static NO_FONT: std::cell::Cell<bool> = const { std::cell::Cell::new(false) };
-}
-
-fn build_inner(p: &Program, dev: Deviations, split_at: Option<usize>) -> (Built, usize) {
-    let mut f0 = initial_frame();
-    // category codes of ^^A, ^^B and | under the plain-TeX defaults of the VM
-    let defaults = texlang::types::CatCode::PLAIN_TEX_DEFAULTS;
-    for (i, c) in CAT_CHARS.iter().enumerate() {
-        f0.insert(format!("cat{}", i), Val::I(defaults[*c as usize] as u8 as i64));
-    }
-    let mut e = Emit { text: String::from(PREAMBLE), model: vec![f0], expected: String::new(), dev };
+fn build_inner(p: &Program, dev: Deviations, split_at: Option<usize>, no_probes: bool) -> (Built, usize) {
+    let mut e = Emit { text: String::from(PREAMBLE), model: vec![initial_frame()], tdef: vec![[true, true, true, false, false]], expected: String::new(), dev, no_probes };
     let mut max_depth = 0;
     // per open group: targets assigned locally / globally in it
     let mut touched: Vec<BTreeMap<Tgt, (bool, bool)>> = vec![BTreeMap::new()];
     let mut nontrivial = false;
     let mut uses_globaldefs = false;
+    let mut classes: BTreeSet<&'static str> = BTreeSet::new();
     let mut split_pos: Option<usize> = None;
     for (op_index, op) in p.ops.iter().enumerate() {
         if split_at == Some(op_index) {
@@ -451,9 +771,17 @@ fn build_inner(p: &Program, dev: Deviations, split_at: Option<usize>) -> (Built,
                 if e.model.len() > 8 {
                     continue;
                 }
-                e.text.push('{');
+                // every fourth position opens the group with an implicit brace (same group in TeX, §1063)
+                if op_index % 4 == 3 {
+                    e.text.push_str("\\vpbg ");
+                    classes.insert("group opened or closed by an implicit brace");
+                } else {
+                    e.text.push('{');
+                }
                 let top = e.top().clone();
                 e.model.push(top);
+                let top = *e.tdef.last().unwrap();
+                e.tdef.push(top);
                 touched.push(BTreeMap::new());
                 max_depth = max_depth.max(e.model.len() - 1);
             }
@@ -461,27 +789,65 @@ fn build_inner(p: &Program, dev: Deviations, split_at: Option<usize>) -> (Built,
                 if e.model.len() == 1 {
                     continue;
                 }
-                e.text.push('}');
+                if op_index % 4 == 2 {
+                    e.text.push_str("\\vpeg ");
+                    classes.insert("group opened or closed by an implicit brace");
+                } else {
+                    e.text.push('}');
+                }
                 e.model.pop();
+                e.tdef.pop();
                 touched.pop();
                 e.read_all();
             }
-            Op::Assign { t, v, how } => {
+            Op::Assign { t, v, how, x } => {
                 let before_g = e.geti("globaldefs");
-                e.assign(*t, *v, *how);
+                let done = e.assign(*t, *v, *how, *x);
                 if matches!(t, Tgt::GlobalDefs) || before_g != 0 {
                     uses_globaldefs = true;
                 }
                 let depth = e.model.len() - 1;
-                let is_g = !matches!(how, How::Plain | How::Let) || before_g > 0;
-                let ent = touched.last_mut().unwrap().entry(*t).or_insert((false, false));
-                if is_g {
+                let ent = touched.last_mut().unwrap().entry(norm(*t)).or_insert((false, false));
+                // by the scope the assignment really has (after \globaldefs), not by its spelling
+                if done.global {
+                    if depth >= 2 && ent.0 {
+                        classes.insert(LG[kind(*t)]);
+                    }
                     ent.1 = true;
                 } else {
+                    if depth >= 2 && ent.1 {
+                        classes.insert(GL[kind(*t)]);
+                    }
                     ent.0 = true;
                 }
                 if depth >= 2 && ent.0 && ent.1 {
                     nontrivial = true;
+                }
+                if depth >= 1 {
+                    if done.arith {
+                        classes.insert(if done.global { "global \\advance/\\multiply/\\divide in a group" } else { "local \\advance/\\multiply/\\divide in a group" });
+                    }
+                    if done.chain {
+                        classes.insert("prefix chain (\\long/\\outer/\\global\\global) in a group");
+                    }
+                    if done.global_shorthand {
+                        classes.insert("\\global\\chardef / \\global\\mathchardef in a group");
+                    }
+                    if done.high_code {
+                        classes.insert("code-table entry above 127 assigned in a group");
+                    }
+                    if done.defines_undefined {
+                        classes.insert(if done.global { "undefined name defined globally in a group" } else { "undefined name defined locally in a group" });
+                    }
+                    if done.let_undefined {
+                        classes.insert("\\let from an undefined name in a group");
+                    }
+                    if done.let_char {
+                        classes.insert("\\let to a character or \\relax in a group");
+                    }
+                    if matches!(kind(*t), 12 | 13) {
+                        classes.insert("\\countdef/\\chardef on an active character in a group");
+                    }
                 }
             }
             Op::Read(t) => e.read(*t),
@@ -491,68 +857,193 @@ fn build_inner(p: &Program, dev: Deviations, split_at: Option<usize>) -> (Built,
     while e.model.len() > 1 {
         e.text.push('}');
         e.model.pop();
+        e.tdef.pop();
         e.read_all();
     }
     e.read_all();
     e.text.push('%');
-    (Built { text: e.text, expected: e.expected, max_depth, nontrivial, uses_globaldefs }, split_pos)
+    (Built { text: e.text, expected: e.expected, max_depth, nontrivial, uses_globaldefs, classes: classes.into_iter().collect() }, split_pos)
 }
 
 fn tgt_strategy() -> impl Strategy<Value = Tgt> {
     let all = all_targets();
-    (0..all.len()).prop_map(move |i| all[i])
+    // \globaldefs changes the scope of everything that follows: keep it as frequent as it was with fewer targets
+    (0..all.len() + 2).prop_map(move |i| if i < all.len() { all[i] } else { Tgt::GlobalDefs })
 }
 
 fn how_strategy() -> impl Strategy<Value = How> {
     prop_oneof![
-        4 => Just(How::Plain),
-        4 => Just(How::Global),
-        1 => Just(How::Gdef),
-        1 => Just(How::GlobalGdef),
-        1 => Just(How::Let),
-        1 => Just(How::GlobalLet),
+        8 => Just(How::Plain),
+        8 => Just(How::Global),
+        2 => Just(How::Gdef),
+        2 => Just(How::GlobalGdef),
+        2 => Just(How::Let),
+        2 => Just(How::GlobalLet),
+        3 => Just(How::Arith),
+        3 => Just(How::GlobalArith),
+        1 => Just(How::LetChar),
+        1 => Just(How::GlobalLetChar),
     ]
 }
 
 pub fn program_strategy(max_ops: usize) -> impl Strategy<Value = Program> {
     // A focus set of a few targets makes local/global collisions on one target likely.
-    (proptest::collection::vec(tgt_strategy(), 1..4), proptest::collection::vec((0u8..10, tgt_strategy(), any::<u8>(), how_strategy(), 0u8..10), 0..max_ops)).prop_map(
-        |(focus, raw)| {
-            let mut ops = vec![];
-            for (kind, t, v, how, f) in raw {
-                let t = if f < 7 { focus[(v as usize) % focus.len()] } else { t };
-                ops.push(match kind {
-                    0..=2 => Op::Begin,
-                    3..=4 => Op::End,
-                    5..=8 => Op::Assign { t, v: v / 3, how },
-                    _ => Op::Read(t),
-                });
-            }
-            Program { ops }
-        },
-    )
+    (proptest::collection::vec(tgt_strategy(), 1..4), proptest::collection::vec((0u8..10, tgt_strategy(), any::<u8>(), how_strategy(), 0u8..10, any::<u8>()), 0..max_ops)).prop_map(|(focus, raw)| {
+        let mut ops = vec![];
+        for (kind, t, v, how, f, x) in raw {
+            let t = if f < 7 { focus[(v as usize) % focus.len()] } else { t };
+            ops.push(match kind {
+                0..=2 => Op::Begin,
+                3..=4 => Op::End,
+                5..=8 => Op::Assign { t, v: v / 3, how, x },
+                _ => Op::Read(t),
+            });
+        }
+        Program { ops }
+    })
 }
 
-fn oracle(ctx: &Ctx, p: &Program, case: &mut Case) -> Verdict {
-    let b = build(p, Deviations::default());
+// ---------------------------------------------------------------------------------------------
+// Engines
+
+thread_local! {
+    static OUT: RefCell<Vec<OutTok>> = const { RefCell::new(vec![]) };
+}
+
+/// Where the probes of an engine put their output (the same place as its character handler).
+trait ProbeSink: TexlangState + Sized {
+    fn emit(input: &mut vm::ExecutionInput<Self>, o: OutTok);
+}
+impl ProbeSink for HState {
+    fn emit(input: &mut vm::ExecutionInput<Self>, o: OutTok) {
+        input.state_mut().out.push(o);
+    }
+}
+impl ProbeSink for StdLibState {
+    fn emit(_input: &mut vm::ExecutionInput<Self>, o: OutTok) {
+        OUT.with(|v| v.borrow_mut().push(o));
+    }
+}
+
+/// `\vpdef<token>`: record whether the (unexpanded) control sequence or active character has a meaning.
+fn vpdef_fn<S: ProbeSink>(_t: Token, input: &mut vm::ExecutionInput<S>) -> texlang::prelude::Result<()> {
+    let defined = match input.unexpanded().next()? {
+        Some(t) => match t.value() {
+            Value::CommandRef(r) => input.commands_map().get_command(&r).is_some() as i64,
+            _ => 2,
+        },
+        None => 3,
+    };
+    S::emit(input, OutTok::Probe(1, defined));
+    Ok(())
+}
+
+/// `\vpfont` for the shipped state type.
+fn vpfont_fn<S: ProbeSink>(_t: Token, input: &mut vm::ExecutionInput<S>) -> texlang::prelude::Result<()> {
+    let f = input.vm().current_font();
+    S::emit(input, OutTok::Probe(0, f.0 as i64));
+    Ok(())
+}
+
+struct CaptureStd;
+impl vm::Handlers<StdLibState> for CaptureStd {
+    fn character_handler(input: &mut vm::ExecutionInput<StdLibState>, token: Token, _c: char) -> texlang::prelude::Result<()> {
+        let o = texvm::tok_to_out(input.vm(), token);
+        OUT.with(|v| v.borrow_mut().push(o));
+        Ok(())
+    }
+    fn unexpanded_expansion_command(input: &mut vm::ExecutionInput<StdLibState>, token: Token) -> texlang::prelude::Result<()> {
+        let o = texvm::tok_to_out(input.vm(), token);
+        OUT.with(|v| v.borrow_mut().push(o));
+        Ok(())
+    }
+}
+
+#[derive(Clone, Copy, Debug, PartialEq, Eq, Serialize, Deserialize)]
+pub enum Engine {
+    /// harness state type (`texvm::HState`) with the probes
+    Harness,
+    /// the shipped `StdLibState` with its default built-ins plus the probes and four font selectors
+    StdLibProbes,
+    /// the shipped `StdLibState`, nothing added, run through `script::run_to_string`
+    StdLibScript,
+}
+
+/// (output as plain text, error title)
+fn run_engine(engine: Engine, text: &str) -> (String, Option<String>) {
+    match engine {
+        Engine::Harness => {
+            let mut m = texvm::built_ins(false);
+            m.insert("vpdef", command::BuiltIn::new_execution(vpdef_fn::<HState>));
+            let mut vm = Box::new(vm::VM::<HState>::new_with_built_in_commands(m));
+            vm.state.budget.set(texvm::VmOptions::default().budget);
+            let r = texvm::run_source(&mut vm, "input.tex", text);
+            (texvm::plain(&r.out), r.error)
+        }
+        Engine::StdLibProbes => {
+            let mut m = StdLibState::default_built_in_commands();
+            m.insert("vpdef", command::BuiltIn::new_execution(vpdef_fn::<StdLibState>));
+            m.insert("vpfont", command::BuiltIn::new_execution(vpfont_fn::<StdLibState>));
+            m.insert("nullfont", command::BuiltIn::new_font(types::Font::NULL_FONT));
+            m.insert("vpfa", command::BuiltIn::new_font(types::Font(1)));
+            m.insert("vpfb", command::BuiltIn::new_font(types::Font(2)));
+            m.insert("vpfc", command::BuiltIn::new_font(types::Font(3)));
+            let mut vm = Box::new(vm::VM::<StdLibState>::new_with_built_in_commands(m));
+            OUT.with(|v| v.borrow_mut().clear());
+            if vm.push_source("input.tex".to_string(), text.to_string()).is_err() {
+                panic!("push_source failed");
+            }
+            let r = vm.run::<CaptureStd>();
+            let out = OUT.with(|v| std::mem::take(&mut *v.borrow_mut()));
+            (texvm::plain(&out), r.err().map(|e| e.error.title()))
+        }
+        Engine::StdLibScript => {
+            let mut vm = Box::new(vm::VM::<StdLibState>::new());
+            if vm.push_source("input.tex".to_string(), text.to_string()).is_err() {
+                panic!("push_source failed");
+            }
+            match texlang_stdlib::script::run_to_string(&mut vm) {
+                Ok(s) => (s, None),
+                Err(e) => (String::new(), Some(e.error.title())),
+            }
+        }
+    }
+}
+
+fn oracle(ctx: &Ctx, p: &Program, engine: Engine, case: &mut Case) -> Verdict {
+    let no_probes = engine == Engine::StdLibScript;
+    let b = build_opts(p, Deviations::default(), None, no_probes).0;
     case.class_if(b.max_depth >= 2, "depth>=2");
     case.class_if(b.max_depth >= 4, "depth>=4");
+    case.class_if(b.max_depth == 8, "depth=8");
     case.class_if(b.uses_globaldefs, "globaldefs");
     case.class_if(b.nontrivial, "local+global same target depth>=2");
-    case.note = Some(b.text.clone());
-    let r = texvm::run_program(&VmOptions::default(), &b.text);
-    if let Some(e) = &r.error {
-        return Verdict::Fail(format!("program failed with error {e:?}\nprogram: {}", b.text));
+    for c in &b.classes {
+        case.class(c);
     }
-    let got = texvm::plain(&r.out);
+    match engine {
+        Engine::Harness => {}
+        Engine::StdLibProbes => case.class("engine: StdLibState + probes"),
+        Engine::StdLibScript => case.class("engine: StdLibState, script::run_to_string"),
+    }
+    case.note = Some(b.text.clone());
+    let (got, error) = run_engine(engine, &b.text);
+    if let Some(e) = &error {
+        return Verdict::Fail(format!("program failed with error {e:?}\nprogram: {}\noutput so far: {}", b.text, got));
+    }
     if got == b.expected {
         return Verdict::pass(b.nontrivial);
     }
-    // Known deviations (only those listed in KNOWN_FINDINGS.txt are tried).
-    if ctx.known("flag:gdef_ignores_negative_globaldefs") {
-        let b2 = build(p, Deviations { gdef_ignores_negative_globaldefs: true });
+    // Known deviations (only those listed in KNOWN_FINDINGS.txt are tried; a case may need more than one).
+    let k1 = ctx.known("flag:gdef_ignores_negative_globaldefs");
+    let k2 = ctx.known("flag:let_undefined_is_noop");
+    for (d1, d2) in [(true, false), (false, true), (true, true)] {
+        if (d1 && !k1) || (d2 && !k2) {
+            continue;
+        }
+        let b2 = build_opts(p, Deviations { gdef_ignores_negative_globaldefs: d1, let_undefined_is_noop: d2 }, None, no_probes).0;
         if got == b2.expected {
-            return Verdict::Known("flag:gdef_ignores_negative_globaldefs".into());
+            return Verdict::Known(if d2 { "flag:let_undefined_is_noop" } else { "flag:gdef_ignores_negative_globaldefs" }.into());
         }
     }
     Verdict::Fail(format!("output differs from the scoping model\nprogram:  {}\nexpected: {}\ngot:      {}\nfirst difference at {}", b.text, b.expected, got, first_diff(&b.expected, &got)))
@@ -573,12 +1064,26 @@ pub fn first_diff(a: &str, b: &str) -> String {
     format!("char {} (read #{})", n, field)
 }
 
+#[derive(Clone, Debug, Serialize, Deserialize)]
+pub struct StdCase {
+    pub program: Program,
+    pub engine: Engine,
+}
+
 pub fn run(ctx: &Ctx) {
-    ctx.rule("programs = one-line TeX sources rendered from histories of {, }, local/\\global/\\gdef/\\let/\\globaldefs assignments to count/dimen/skip/toks registers, \\countdef/\\toksdef/\\chardef aliases, macros \\ma \\mb and active ~, \\catcode/\\mathcode entries, \\endlinechar, \\globaldefs and the current font, with reads of every target after every group end; output compared with a stack-of-snapshots model. non-trivial = some target assigned both locally and globally within one group at depth>=2; distinct = by program text");
-    ctx.assume("\\global\\chardef is a fatal error in Texlang (not prefixable); \\chardef is therefore made global only through \\globaldefs");
-    ctx.assume("dimension and glue values are whole points so printing does not depend on print_scaled (decided by C06)");
-    let n = ctx.tier.pick(100_000u64, 1_500_000u64);
-    run_generated(ctx, "scoping", n, || program_strategy(60), |p: &Program, case| oracle(ctx, p, case));
-    let n2 = ctx.tier.pick(12_000u64, 150_000u64);
-    run_generated(ctx, "scoping_long", n2, || program_strategy(250), |p: &Program, case| oracle(ctx, p, case));
+    ctx.rule("programs = one-line TeX sources rendered from histories of {, } (every fourth one spelled as an implicit brace \\vpbg/\\vpeg), local/\\global/\\gdef/\\let/\\globaldefs assignments (prefix chains \\global\\global, \\long\\global, \\outer\\global\\long included) to count/dimen/skip/toks registers, also by \\advance/\\multiply/\\divide, \\countdef/\\toksdef/\\chardef/\\mathchardef aliases on control sequences and on the active character `:`, macros \\ma \\mb, active ~, and \\mc, active ? which start undefined (\\def, \\gdef, \\let to a macro, a character, \\relax or an undefined name), \\catcode/\\mathcode entries below and above 128, \\endlinechar, \\globaldefs and the current font, with reads of every target (and of whether each macro name is defined) after every group end; output compared with a stack-of-snapshots model. Run on the harness state type and, in sub-check scoping_stdlib, on the shipped StdLibState (with the probes added, and unchanged through script::run_to_string). non-trivial = some target assigned both locally and globally (by effective scope) within one group at depth>=2; distinct = by program text");
+    ctx.assume("dimension and glue values are whole points so printing does not depend on print_scaled (decided by C06); operands of \\advance/\\multiply/\\divide are bent so that no overflow and no fractional point arises");
+    ctx.assume("initial values of \\catcode for code points above 127 (12) and of \\mathcode (0) are Texlang's documented defaults; only their restoration is checked");
+    let n = ctx.tier.pick(80_000u64, 1_500_000u64);
+    run_generated(ctx, "scoping", n, || program_strategy(60), |p: &Program, case| oracle(ctx, p, Engine::Harness, case));
+    let n2 = ctx.tier.pick(10_000u64, 150_000u64);
+    run_generated(ctx, "scoping_long", n2, || program_strategy(250), |p: &Program, case| oracle(ctx, p, Engine::Harness, case));
+    let n3 = ctx.tier.pick(10_000u64, 200_000u64);
+    run_generated(
+        ctx,
+        "scoping_stdlib",
+        n3,
+        || (program_strategy(60), prop_oneof![Just(Engine::StdLibProbes), Just(Engine::StdLibScript)]).prop_map(|(program, engine)| StdCase { program, engine }),
+        |c: &StdCase, case| oracle(ctx, &c.program, c.engine, case),
+    );
 }
